@@ -12,11 +12,13 @@ from ..analysis import (
     DefineUse,
     DefineUseAnalysis,
     PhiDef,
+    Purity,
     Reachability,
     ReachingDefs,
     SyntaxCheck,
 )
 from ..ast.fpyast import *
+from ..ast.visitor import DefaultVisitor
 from ..env import ForeignEnv
 from ..function import Function
 from ..number import REAL, Float
@@ -58,6 +60,25 @@ def _replace_ret(block: StmtBlock, new_var: NamedId):
             raise RuntimeError(f'expected a `return` or `with` statement, got `{last_stmt}`')
 
 
+class _EvalOrder(DefaultVisitor):
+    """The expressions a statement (or an expression) evaluates itself, nested
+    blocks aside, each after its operands: the order they are evaluated in."""
+
+    def __init__(self):
+        self.order: list[Expr] = []
+
+    def _visit_expr(self, e: Expr, ctx: None):
+        super()._visit_expr(e, ctx)
+        self.order.append(e)
+
+    def _visit_block(self, block: StmtBlock, ctx: None):
+        pass
+
+
+_READS_A_LIST = (ListRef, ListSlice, ListComp, Call, Sum, AMin, AMax, AnyOf, AllOf, Enumerate, Zip)
+"""expressions whose value may depend on what a list holds, or on a callee"""
+
+
 @dataclass
 class _Ctx:
     stmts: list[Stmt]
@@ -75,7 +96,34 @@ class _Ctx:
         return _Ctx(self.stmts, self.is_ctx_expr, self.in_while_cond, self.in_conditional or why)
 
 
-def _refuses(e: Call, *, in_while_cond: bool, in_conditional: str | None = None) -> str | None:
+def _reorders(e: Call, order: list[Expr], def_use: DefineUseAnalysis) -> str | None:
+    """Why splicing the body of the callee of *e* ahead of its statement would
+    change what the statement computes, or `None` where it would not.
+
+    *order* is what the statement evaluates, in order.  The body moves ahead
+    of everything the statement evaluates before the call.  That is
+    unobservable when nothing evaluated earlier reads a list or calls
+    anything, or when neither side stores into one.
+    """
+    assert isinstance(e.fn, Function)
+    idx = next((i for i, x in enumerate(order) if x is e), None)
+    if idx is None:
+        return None
+    own = _EvalOrder()
+    own._visit_expr(e, None)
+    inner = {id(x) for x in own.order}
+    earlier = [x for x in order[:idx] if id(x) not in inner and isinstance(x, _READS_A_LIST)]
+    if not earlier:
+        return None
+    if Purity.analyze(e.fn.ast) and all(Purity.analyze_expr(x, def_use) for x in earlier if isinstance(x, Call)):
+        return None
+    return (
+        f'inlining `{e.fn.name}` here would run its body before `{earlier[0].format()}`, '
+        f'which the statement evaluates first, and one of them stores into a list'
+    )
+
+
+def _refuses(e: Call, *, in_while_cond: bool, in_conditional: str | None = None, reorders: str | None = None) -> str | None:
     """Why the call *e* cannot be inlined, or `None` where it can.
 
     Decided from the call and the callee alone, so a listing and the rewrite
@@ -101,7 +149,7 @@ def _refuses(e: Call, *, in_while_cond: bool, in_conditional: str | None = None)
             f'`{e.fn.name}` has {n_rets} return statements, and inlining needs '
             f'exactly one, trailing'
         )
-    return None
+    return reorders
 
 
 class _FuncInline(SiteRewriter):
@@ -147,6 +195,7 @@ class _FuncInline(SiteRewriter):
         self.inlined = {} if inlined is None else inlined
         self.recursive = recursive
 
+        self._order: list[Expr] = []
         self.gensym = Gensym(self.def_use.names())
         self.free_vars = set(func.free_vars)
         self.env = func.env.copy()
@@ -160,7 +209,10 @@ class _FuncInline(SiteRewriter):
             return super()._visit_call(e, ctx)
 
         # a refusal is not a site, so it takes no index
-        reason = _refuses(e, in_while_cond=ctx.in_while_cond, in_conditional=ctx.in_conditional)
+        reason = _refuses(
+            e, in_while_cond=ctx.in_while_cond, in_conditional=ctx.in_conditional,
+            reorders=_reorders(e, self._order, self.def_use),
+        )
         if reason is not None:
             self.refused.append((e, reason))
             if self._named_by_cursor(e):
@@ -310,6 +362,10 @@ class _FuncInline(SiteRewriter):
         for pos, stmt in enumerate(block.stmts):
             self._site = (block, pos)
             before = len(block_ctx.stmts)
+            # what this statement evaluates, in order (see `_reorders`)
+            order = _EvalOrder()
+            order._visit_statement(stmt, None)
+            self._order = order.order
             stmt, _ = self._visit_statement(stmt, block_ctx)
             block_ctx.stmts.append(stmt)
             # the callee's body is spliced in *ahead* of the statement that held
